@@ -111,6 +111,7 @@ def build_extract():
 def run_t4(names):
     """Tie T4: regenerate Generated/<name>.lean from the current Go source."""
     ex = build_extract()
+    os.makedirs(os.path.join(LEAN, "GrpcModel", "Generated"), exist_ok=True)   # untracked: absent in a fresh checkout
     for n in names:
         spec = os.path.join(ROOT, "tools", "t4", n + ".json")
         out = os.path.join(LEAN, "GrpcModel", "Generated", n + ".lean")
